@@ -17,7 +17,7 @@ import time
 VERIF = os.path.dirname(os.path.dirname(os.path.abspath(__file__)))
 DRIVER_DIR = os.path.join(VERIF, "driver")
 DRIVER = os.path.join(DRIVER_DIR, "target", "release", "bva-facts")
-CACHE = os.path.join(VERIF, ".cache")
+CACHE = os.environ.get("BVA_FACTS_CACHE") or os.path.join(VERIF, ".cache")
 
 CONFIGS = {
     # dev profile: debug assertions + overflow checks on
